@@ -261,6 +261,23 @@ class Job:
             self.n_discharged += 1
             return
         if r == z3.unknown:
+            # the solver could neither prove the obligation nor produce a model.  Never a pass: if the harness
+            # offers candidate inputs, a counterexample found by replaying them on the real code is reported as a
+            # violation; otherwise the run is inconclusive (exit 2).
+            if self.spec.fallback is not None and self.spec.replay is not None:
+                import random
+                rng = random.Random(self.seed * 7919 + len(self.violations))
+                for _ in range(self.spec.fallback_tries):
+                    cand = self.spec.fallback(self.params, rng)
+                    try:
+                        rep = self.spec.replay(cand, self.params, name)
+                    except BaseException as ex:      # noqa
+                        rep = {'reproduced': False, 'error': f'{type(ex).__name__}: {ex}'}
+                    if rep.get('reproduced'):
+                        self.violations.append({'harness': self.spec.name, 'params': jsonable(self.params), 'obligation': name,
+                                                'inputs': jsonable(cand), 'info': {'found_by': 'candidate replay after solver unknown'},
+                                                'path': self.path_index, 'replay': jsonable(rep)})
+                        return
             self.inconclusive.append({'harness': self.spec.name, 'params': jsonable(self.params),
                                       'obligation': name, 'why': 'solver unknown'})
             return
@@ -286,7 +303,7 @@ class Job:
 
 class HarnessSpec:
     def __init__(self, name, fn, params=None, replay=None, concrete=None, signature=None, merge=True,
-                 witness_every=1, fresh_pkg=False, doc=''):
+                 witness_every=1, fresh_pkg=False, doc='', fallback=None, fallback_tries=6):
         self.name = name
         self.fn = fn                      # fn(ctx, pkg, **params) -> outcome
         self.params = params or [{}]      # list of dicts | callable(tier) -> list of dicts
@@ -297,6 +314,8 @@ class HarnessSpec:
         self.witness_every = witness_every
         self.fresh_pkg = fresh_pkg
         self.doc = doc
+        self.fallback = fallback          # fallback(params, rng) -> candidate inputs tried when the solver answers unknown
+        self.fallback_tries = fallback_tries
 
     def param_list(self, tier):
         return self.params(tier) if callable(self.params) else self.params
